@@ -88,3 +88,31 @@ func Harness_C13mut(arg int) {
 	}
 	c13Check(text, c13Flags())
 }
+
+// Harness_C13chain: arg = depth d of the reference chain R0 <- R1? R1?, ...,
+// Rd <- "a" (a valid grammar without left recursion of 14 bytes per rule). The
+// tool must terminate on it like on any other text; the nullable analysis
+// visits a referenced rule once per reference, i.e. 2^d times (finding F18).
+func Harness_C13chain(d int) {
+	text := []byte("{\npackage p\n}\n")
+	digits := func(n int) []byte {
+		if n < 10 {
+			return []byte{byte('0' + n)}
+		}
+		return []byte{byte('0' + n/10), byte('0' + n%10)}
+	}
+	for i := 0; i < d; i++ {
+		text = append(text, 'R')
+		text = append(text, digits(i)...)
+		text = append(text, " <- R"...)
+		text = append(text, digits(i+1)...)
+		text = append(text, "? R"...)
+		text = append(text, digits(i+1)...)
+		text = append(text, "?\n"...)
+	}
+	text = append(text, 'R')
+	text = append(text, digits(d)...)
+	text = append(text, " <- \"a\"\n"...)
+	symNote("chain")
+	c13Check(text, symFlags{leftRec: symBool("leftRec")})
+}
